@@ -396,6 +396,9 @@ func (st *State) errChainNext(e IfaceV) (IfaceV, bool) {
 		return IfaceV{}, false
 	}
 	// real type with Unwrap() error
+	if st.eng.prog.MethodSets.MethodSet(e.T).Lookup(nil, "Unwrap") == nil {
+		return IfaceV{}, false // (LookupMethod panics on a type without the method)
+	}
 	fn := st.eng.prog.LookupMethod(e.T, nil, "Unwrap")
 	if fn == nil {
 		return IfaceV{}, false
